@@ -376,18 +376,29 @@ def search(ctx):
                 labels = ['red', 'green']
                 wl = {'red': 0.66, 'green': 0.52} if rng.random() < 0.5 else 0.66
                 pol = (1, 0)
+                tk = int(rng.integers(0, 6))
+                if tk >= 3:
+                    # theories with options and fittable parameters: one sphere under a lens theory, lens angle / aberration fixed or fitted
+                    sc = Sphere(n=shared, r=Uniform(0.3, 0.6, guess=0.45), center=[Uniform(0, 1), 0.5, Uniform(5, 9)])
+                    la = Uniform(0.5, 1.0, guess=0.8) if rng.random() < 0.6 else 0.8
+                    theory = [MieLens(lens_angle=la), AberratedMieLens(spherical_aberration=Uniform(-1.0, 1.0, guess=0.1) if rng.random() < 0.5 else 0.2, lens_angle=la),
+                              MieLens(lens_angle=la, calculator_accuracy_kwargs={'quad_npts': 80})][tk - 3]
+                else:
+                    theory = [Mie(), 'auto', Mie(False, False)][tk]
                 model = AlphaModel(sc, alpha=Uniform(0.5, 1.0, name='alpha') if rng.random() < 0.7 else 0.8, noise_sd=0.1, medium_index=1.33,
-                                   illum_wavelen=wl, illum_polarization=pol, theory=Mie() if rng.random() < 0.5 else 'auto')
+                                   illum_wavelen=wl, illum_polarization=pol, theory=theory)
                 rn = [nm for nm in model._parameter_names if nm.endswith('r') or ':r' in nm]
-                if len(rn) >= 2 and rng.random() < 0.6:
+                if tk < 3 and len(rn) >= 2 and rng.random() < 0.6:
                     rr = Uniform(0.3, 0.6, guess=0.45)
                     sc2 = Spheres([Sphere(n=shared, r=Uniform(0.3, 0.6, guess=0.45), center=s.center) for s in sc.scatterers], warn=False)
                     model = AlphaModel(sc2, alpha=0.8, noise_sd=0.1, medium_index=1.33, illum_wavelen=wl, illum_polarization=pol, theory=Mie())
                     rn = [nm for nm in model._parameter_names if nm.endswith('r')]
                     model.add_tie(rn[:2], new_name="r_tied")
-                ctx.tried("model", (len(model._parameter_names), i))
+                ctx.tried("model", (len(model._parameter_names), type(model.theory).__name__, i))
                 back, texts = cycle(model, 2, to_file=(i % 8 == 3))
-                info = dict(kind="model", names=list(model._parameter_names))
+                info = dict(kind="model", names=list(model._parameter_names), theory=repr(model.theory))
+                if repr(back.theory_from_parameters(vals_t := [p.guess * 1.01 for p in model._parameters])) != repr(model.theory_from_parameters(vals_t)):
+                    ctx.violation("C15:model-theory", "reloaded model builds a different theory from the same parameter values", info)
                 if back._parameter_names != model._parameter_names:
                     ctx.violation("C15:model-names", "reloaded model has parameter names %r, original %r" % (back._parameter_names, model._parameter_names), info)
                 vals = [p.guess * 1.01 for p in model._parameters]
